@@ -17,6 +17,8 @@ import (
 	"time"
 
 	"github.com/samaritan-proxy/samaritan/config"
+	"google.golang.org/grpc/codes"
+	"google.golang.org/grpc/status"
 )
 
 type c16Stream struct {
@@ -26,13 +28,30 @@ type c16Stream struct {
 	dead   chan struct{}
 	once   sync.Once
 	twice  int // requests naming one service in both lists
+	gate   chan struct{} // when set, the first Send waits for it (a slow resubscription)
+	gated  chan struct{} // closed when that Send has begun to wait
+	cancel bool          // the stream ends with a CANCELLED status instead of a plain error
+	gateCh chan struct{}
+}
+
+func (s *c16Stream) downErr() error {
+	if s.cancel {
+		return status.Error(codes.Canceled, "stream cancelled by the server")
+	}
+	return errors.New("stream is down")
 }
 
 func (s *c16Stream) Send(sub, unsub []string) error {
 	select {
 	case <-s.dead:
-		return errors.New("stream is down")
+		return s.downErr()
 	default:
+	}
+	if s.gate != nil {
+		g := s.gate
+		s.gate = nil
+		close(s.gated)
+		<-g
 	}
 	s.mu.Lock()
 	defer s.mu.Unlock()
@@ -53,14 +72,27 @@ func (s *c16Stream) Send(sub, unsub []string) error {
 
 func (s *c16Stream) Recv() error {
 	<-s.dead
-	return errors.New("stream is down")
+	return s.downErr()
 }
 
 func (s *c16Stream) kill() { s.once.Do(func() { close(s.dead) }) }
 
+func releaseGate(s *c16Stream) {
+	if s == nil {
+		return
+	}
+	defer func() { recover() }()
+	if s.gateCh != nil {
+		close(s.gateCh)
+	}
+}
+
 func runC16(line string) string {
 	var mu sync.Mutex
 	allowed := false
+	gateNext := false
+	useRun := strings.HasPrefix(line, "RUN ")
+	line = strings.TrimPrefix(line, "RUN ")
 	var cur *c16Stream
 	created := 0
 	maker := func(ctx context.Context) (config.VerifStream, error) {
@@ -71,15 +103,24 @@ func runC16(line string) string {
 		}
 		created++
 		cur = &c16Stream{view: map[string]bool{}, dead: make(chan struct{})}
+		if gateNext {
+			gateNext = false
+			cur.gate, cur.gated = make(chan struct{}), make(chan struct{})
+			cur.gateCh = cur.gate
+		}
 		return cur, nil
 	}
 	c := config.VerifNewSubClient(maker)
 	ctx, cancel := context.WithCancel(context.Background())
 	var wg sync.WaitGroup
 	wg.Add(1)
-	go func() { // Run's retry loop without its one-second pause
+	go func() {
 		defer wg.Done()
-		for ctx.Err() == nil {
+		if useRun { // the real retry loop, with its jittered one-second pause
+			c.Run(ctx)
+			return
+		}
+		for ctx.Err() == nil { // Run's body without the pause
 			c.RunOnce(ctx)
 			time.Sleep(2 * time.Millisecond)
 		}
@@ -102,6 +143,41 @@ func runC16(line string) string {
 			break
 		}
 		switch {
+		case op[0] == 'U':
+			// a stream comes up and, while its resubscription request is still being sent, the dependency set changes
+			mu.Lock()
+			allowed = true
+			gateNext = true
+			mu.Unlock()
+			var st *c16Stream
+			waitFor(3*time.Second, func() bool { mu.Lock(); defer mu.Unlock(); st = cur; return cur != nil })
+			if st != nil && st.gated != nil {
+				waitFor(300*time.Millisecond, func() bool {
+					select {
+					case <-st.gated:
+						return true
+					default:
+						return false
+					}
+				})
+			}
+			want[op[1:]] = true
+			call(func() { c.Subscribe(op[1:]) })
+			mu.Lock()
+			gateNext = false
+			mu.Unlock()
+			releaseGate(st)
+		case op == "downc" || op == "down":
+			mu.Lock()
+			allowed = false
+			s := cur
+			cur = nil
+			mu.Unlock()
+			if s != nil {
+				s.cancel = op == "downc"
+				s.kill()
+			}
+			settle(8 * time.Millisecond)
 		case op == "up":
 			mu.Lock()
 			allowed = true
@@ -109,15 +185,7 @@ func runC16(line string) string {
 			had := cur != nil
 			mu.Unlock()
 			if !had {
-				for t := 0; t < 500; t++ {
-					mu.Lock()
-					ok := created > before
-					mu.Unlock()
-					if ok {
-						break
-					}
-					time.Sleep(2 * time.Millisecond)
-				}
+				waitFor(4*time.Second, func() bool { mu.Lock(); defer mu.Unlock(); return created > before })
 				settle(8 * time.Millisecond)
 			}
 		case op == "down":
@@ -207,7 +275,8 @@ func init() {
 			for i := 0; i < 17; i++ {
 				w = append(w, "s"+strconv.Itoa(i))
 			}
-			lines = append(lines, strings.Join(w, " ")+" up f", "s1 up f u1 s1 f", "up s1 f s1 u1 s2 u2 s2 f down s3 u1 up f")
+			lines = append(lines, strings.Join(w, " ")+" up f", "s1 up f u1 s1 f", "up s1 f s1 u1 s2 u2 s2 f down s3 u1 up f",
+				"s1 s2 U3 f u1 f down s4 U5 f", "RUN s1 up f downc s2 up f", "RUN up s1 f down u1 s3 up f")
 			r := newRng(*fSeed)
 			for i := 0; i < *fN; i++ {
 				var ops []string
